@@ -41,7 +41,7 @@ def concrete_run(exe, case, valfile, tol=None, timeout=120):
 
 def run_phase(chk, name, harness, cases, id_prefixes, prec="d", vendor=False, idx64=False, asan=False, budget_s=240, qtimeout_ms=10000,
               defs=(), bounds="", env=None, key_extra=None, extra_src=(), crash_is_violation=False, event_violations=(), validate_samples=4, tol=None, note_check=None,
-              monitor_ids=(), path_timeout=None):
+              monitor_ids=(), path_timeout=None, crash_filter=None):
     """id_prefixes: assertion-id prefixes that belong to the property being checked.
     monitor_ids: path-record counters ('global_stores', 'ws_viol', 'heap_errors') that are violations when non-zero."""
     t0 = time.time()
@@ -120,7 +120,7 @@ def run_phase(chk, name, harness, cases, id_prefixes, prec="d", vendor=False, id
         for c in ex.crashlog:
             if "rc" not in c: continue
             msg = "crash rc=%s on case %s prefix '%s': %s" % (c["rc"], c["case"], c["prefix"], c["stderr"][-600:].replace("\n", " | "))
-            if crash_is_violation:
+            if crash_is_violation and (crash_filter is None or crash_filter(c["case"])):
                 site = ""
                 for ln in c["stderr"].splitlines():
                     if ln.strip().startswith("#") and e2.REPO + "/" in ln: site = ln.split(e2.REPO + "/")[-1].split(":")[0]; break
